@@ -419,7 +419,7 @@ fn main() {
     ];
     let mut pools = Pools { snaps: Vec::new(), deltas: Vec::new() };
     ctx.arm("c11", 1800.0);
-    let n = ctx.volume(8_000, 800_000, 30, 2_000);
+    let n = ctx.volume(8_000, 300_000, 30, 2_000);
     ctx.run_cases("snapshots", n, |ctx, _i, rng| {
         let (ints, origin): (Vec<i32>, &str) = match rng.below(10) {
             0 => {
